@@ -58,6 +58,17 @@ CHECKS["C14"] = dict(
   note="Trusted: symgo executor and its goroutine/channel/select model (non-preemptive scheduling: a goroutine runs until it blocks), deadline model (expires after at most 3 polls), z3. Bounds: response of 3 (quick) / 4 (thorough) packages, 1-2 packets (2 cut positions quick / 5 thorough), read chunk sizes case-split over {1,3,8,all}. Harness conn error queue has capacity 3 instead of 10. Known findings (reported as KNOWN-FINDING): F-C14-error-overtakes-package, F-C14-data-with-error-dropped. Outside: stalls without error (no read deadline exists in the code), wall-clock time.",
   ref="DESIGN.md §4 C14")
 
+CHECKS["C18"] = dict(
+  technique="symbolic execution of go/ssa (z3 for data): operation histories and 2-goroutine interleavings under a preemption bound, with sync.Pool modelled by its contract (any stored item, miss, GC drop chosen by the executor)",
+  text="Bounded model checking of the real namepool.Pool/Acquire/Release/(*Name).Release/ID/Name. Sequential histories of up to 5 (quick) / 6 (thorough) operations (acquire, release i via either API, release an already released name again, release nil) with every behaviour the sync.Pool contract allows; two goroutines doing acquire/release/acquire under every interleaving within the preemption bound. Decided: live names have pairwise distinct non-zero ids and texts, text = format applied to id, released names are cleared, double release never hands one id to two holders, no panic.",
+  note="Trusted: symgo executor, its sync.Pool / atomic models and its scheduler (sequentially consistent interleavings at Pool, atomic, channel and mutex operations). Bounds: <=6 operations; 2 goroutines, <=2 (quick) / 3 (thorough) preemptions. Outside: more goroutines, real sync.Pool internals, the race detector's verdict.",
+  ref="DESIGN.md §4 C18")
+CHECKS["C19"] = dict(
+  technique="symbolic execution of go/ssa with SMT (z3): all bounds and the version symbolic over an abstract one-byte version domain with a custom comparer",
+  text="Bounded symbolic model checking of the real NewCapability, Target.SetCapabilities, VersionRange.contains, DefaultVersion. Versions/bounds are strings of at most one byte (\"\" = no bound, 0xFF = unparseable) compared by a custom VersionComparer; up to 3 (quick) / 4 (thorough) ranges with every bound and the version symbolic. Decided: Has(cap) iff the version lies in some range (lower inclusive, upper exclusive, missing bound unbounded) whenever the input is well-formed; errors exactly for malformed input that is evaluated; capabilities without ranges never reported; result independent of the order of ranges and capabilities.",
+  note="Trusted: symgo executor (maps keyed by pointers), z3. Outside: the default comparer VersionCompareSemantic (hashicorp/go-version, regexp based) - assumed to be a total preorder that errs exactly on unparseable input.",
+  ref="DESIGN.md §4 C19")
+
 NOT_APPLICABLE = {
 }
 
